@@ -15,9 +15,11 @@ RULE = ("Server cases: a real hio http Server (WSGI echo app) or BareServer (def
         "bytes are grammar-aware mutations of valid requests (header line without ': ' or without colon, non-hex / signed / 0x / "
         "underscore / non-ASCII / empty / huge chunk sizes, bad chunk terminators, valid chunk extensions, absolute-form URLs with "
         "out-of-range or non-numeric port or broken IPv6 literal, lines > 65536 bytes, > 100 headers, bad request lines, unknown "
-        "methods and versions, non-UTF-8 bodies and header bytes, bad Content-Length, Expect: 100-continue) or random bytes, in seeded "
-        "fragmentation, optionally truncated at any byte and followed by FIN or RST. Oracle: server.service() never raises and the "
-        "sibling receives a correct response to every request within the drain bound. Client cases: a real hio http Client with 1-3 "
+        "methods and versions, non-UTF-8 bodies and header bytes, bad Content-Length, Expect: 100-continue; digit-like and "
+        "white-space-like non-ASCII bytes in numeric fields), byte-level mutations of grammar-generated valid messages, or random bytes, in seeded "
+        "fragmentation, optionally truncated at any byte and followed by FIN or RST. Oracle: server.service() never raises, the "
+        "sibling receives a correct response to every request within the drain bound, and a request whose request line is unusable "
+        "beyond doubt is answered or its connection closed within 10 service rounds. Client cases: a real hio http Client with 1-3 "
         "queued requests against a scripted raw peer that answers with byzantine responses (bad status lines, header lines without "
         "colon, bad chunk sizes, 100-continue prefixes, 3xx without or with malformed Location, huge lines, non-UTF-8 event streams, "
         "truncation + FIN/RST, random bytes). Oracle: client.service() never raises; responses that are malformed beyond doubt appear "
